@@ -12,6 +12,7 @@ type VerifEvent struct {
 	Query                   string
 	LRaw, Parsed, Inspected int
 	Lvl                     int
+	Raw                     []byte // exit: the input of this Parse call (not copied)
 }
 
 // VerifHook, when non-nil, receives scanner events.
@@ -23,9 +24,9 @@ func verifEnter(p *parserState) {
 	}
 }
 
-func verifExit(p *parserState, q string, lraw, parsed, inspected, first int, qsat bool) {
+func verifExit(p *parserState, q string, raw []byte, parsed, inspected, first int, qsat bool) {
 	if h := VerifHook; h != nil {
-		h(VerifEvent{Kind: "exit", Query: q, LRaw: lraw, Parsed: parsed, Inspected: inspected,
+		h(VerifEvent{Kind: "exit", Query: q, LRaw: len(raw), Raw: raw, Parsed: parsed, Inspected: inspected,
 			First: first, QSat: qsat, PathLen: len(p.currPath), IB: p.ib})
 	}
 }
